@@ -55,8 +55,6 @@ Definition ft_edge_pods (k : nat) : list (nat * nat) := flat_map (fun p => map (
 Definition ft_host_pods (k : nat) : list (nat * nat) :=
   flat_map (fun p => flat_map (fun e => map (fun i => (host k p e i, p)) (seq 0 (k / 2))) (seq 0 (k / 2))) (seq 0 k).
 
-(* the hosts attached to an edge switch *)
-Definition hosts_of (k : nat) (sw : nat) : list nat := filter (fun v => existsb (Nat.eqb v) (ft_hosts k)) (nbrs (ft_edges k) sw).
 
 (* ---------------------------------------------------------------------------------------------- *)
 (* Structured names of the nodes, and the distance between hosts *)
@@ -85,6 +83,9 @@ Definition decode (k : nat) (v : nat) : coord :=
     Host (w / h / h) ((w / h) mod h) (w mod h).
 
 Definition is_host (k v : nat) : bool := (ncore k + k * k <=? v) && (v <? ft_nnodes k).
+
+(* the hosts attached to an edge switch *)
+Definition hosts_of (k : nat) (sw : nat) : list nat := filter (is_host k) (nbrs (ft_edges k) sw).
 
 (* hop distance between two hosts: 2 under one edge switch, 4 in one pod, 6 otherwise *)
 Definition hostdist (k x y : nat) : nat :=
